@@ -202,6 +202,135 @@ impl<'a> P<'a> {
         }
     }
 }
+impl<'a> P<'a> {
+    /// compact large value (grammar in lean/HvNet/HvNet/Driver/Wire.lean), expanded
+    fn cval(&mut self) -> Option<Val> {
+        let c = self.peek()?;
+        self.i += 1;
+        match c {
+            b'R' => {
+                let n = self.nat()?;
+                if !self.eat(b'*') || n > MAX_REPEAT {
+                    return None;
+                }
+                let v = self.val()?;
+                Some(Val::Vec(vec![v; n as usize]))
+            }
+            b'Z' => {
+                let n = self.nat()?;
+                if !self.eat(b'*') || n > MAX_REPEAT {
+                    return None;
+                }
+                let ch = char::from_u32(u32::try_from(self.nat()?).ok()?)?;
+                Some(Val::Str(ch.to_string().repeat(n as usize).into_bytes()))
+            }
+            b'S' => {
+                if !self.eat(b'(') {
+                    return None;
+                }
+                let v = self.cval()?;
+                if !self.eat(b')') {
+                    return None;
+                }
+                Some(Val::Some(Box::new(v)))
+            }
+            b'#' => {
+                let k = u32::try_from(self.nat()?).ok()?;
+                Some(Val::Variant(k, Box::new(self.cval()?)))
+            }
+            b'(' => Some(Val::Tup(self.celems(b',', b')')?)),
+            b'[' => Some(Val::Vec(self.celems(b';', b']')?)),
+            _ => None,
+        }
+    }
+    /// elements of which exactly one is `@<compact value>`
+    fn celems(&mut self, sep: u8, close: u8) -> Option<Vec<Val>> {
+        let mut out = vec![];
+        let mut seen = false;
+        loop {
+            if self.eat(b'@') {
+                if seen {
+                    return None;
+                }
+                seen = true;
+                out.push(self.cval()?);
+            } else {
+                out.push(self.val()?);
+            }
+            if self.eat(close) {
+                return if seen { Some(out) } else { None };
+            }
+            if !self.eat(sep) {
+                return None;
+            }
+        }
+    }
+}
+/// repeat counts above this are refused (a replay file must not make the harness allocate without bound)
+pub const MAX_REPEAT: u128 = 1 << 25;
+
+pub fn parse_cval(s: &str) -> Option<Val> {
+    let mut p = P { s: s.as_bytes(), i: 0 };
+    let v = p.cval()?;
+    if p.i == s.len() { Some(v) } else { None }
+}
+
+/// the checksum `HvNet.ck 0` of lean/HvNet/HvNet/Model/Bincode.lean
+pub fn ck(bytes: &[u8]) -> u64 {
+    bytes.iter().fold(0u64, |h, b| (h * 31 + *b as u64 + 1) % 4294967291)
+}
+
+/// does a value of this type contain a `Vec` or a `String` (something that can be made large)?
+pub fn has_big(t: &Ty) -> bool {
+    match t {
+        Ty::Str | Ty::Vec(_) => true,
+        Ty::Opt(t) => has_big(t),
+        Ty::Tup(ts) | Ty::Enm(ts) => ts.iter().any(has_big),
+        _ => false,
+    }
+}
+
+/// a compact large value of type `t` with `{N}` where the repeat count goes: a random spine through the
+/// type down to `vec![v; N]` / a `String` of `N` copies of one char
+pub fn gen_spine(t: &Ty, rng: &mut Rng) -> Option<String> {
+    match t {
+        Ty::Str => Some(format!("Z{{N}}*{}", if rng.chance(1, 2) { 0x20 + rng.below(0x5f) as u32 } else { gen_char(rng) })),
+        Ty::Vec(e) => {
+            if has_big(e) && rng.chance(1, 3) {
+                let inner = gen_spine(e, rng)?;
+                let mut parts: Vec<String> = (0..rng.below(3)).map(|_| show_val(&gen_val(e, rng, 2))).collect();
+                parts.push(format!("@{inner}"));
+                parts.extend((0..rng.below(3)).map(|_| show_val(&gen_val(e, rng, 2))));
+                Some(format!("[{}]", parts.join(";")))
+            } else {
+                Some(format!("R{{N}}*{}", show_val(&gen_val(e, rng, 2))))
+            }
+        }
+        Ty::Opt(e) => Some(format!("S({})", gen_spine(e, rng)?)),
+        Ty::Tup(ts) => {
+            let idx: Vec<usize> = (0..ts.len()).filter(|i| has_big(&ts[*i])).collect();
+            if idx.is_empty() {
+                return None;
+            }
+            let at = *rng.pick(&idx);
+            let mut parts = vec![];
+            for (i, t) in ts.iter().enumerate() {
+                parts.push(if i == at { format!("@{}", gen_spine(t, rng)?) } else { show_val(&gen_val(t, rng, 2)) });
+            }
+            Some(format!("({})", parts.join(",")))
+        }
+        Ty::Enm(ts) => {
+            let idx: Vec<usize> = (0..ts.len()).filter(|i| has_big(&ts[*i])).collect();
+            if idx.is_empty() {
+                return None;
+            }
+            let k = *rng.pick(&idx);
+            Some(format!("#{k}{}", gen_spine(&ts[k], rng)?))
+        }
+        _ => None,
+    }
+}
+
 pub fn parse_val(s: &str) -> Option<Val> {
     let mut p = P { s: s.as_bytes(), i: 0 };
     let v = p.val()?;
